@@ -88,6 +88,17 @@ void check_ops(vh::Ctx& c, Rng& r, int d, const Vec& a, const Vec& b, double s, 
   { SU_vector T(A); T -= B; CHECK_OP("sub_assign", T, a[k] - b[k], 0); }
   { SU_vector T(A); T *= s; CHECK_OP("mul_assign", T, a[k] * s, 0); }
   if (s != 0) { SU_vector T(A); T /= s; CHECK_OP("div_assign", T, a[k] / s, 2); }
+  // every value category of the operands (temporaries on either side)
+  CHECK_OP("add_l_r", A + SU_vector(B), a[k] + b[k], 0);
+  CHECK_OP("add_r_l", SU_vector(A) + B, a[k] + b[k], 0);
+  CHECK_OP("add_r_r", SU_vector(A) + SU_vector(B), a[k] + b[k], 0);
+  CHECK_OP("sub_l_r", A - SU_vector(B), a[k] - b[k], 0);
+  CHECK_OP("sub_r_l", SU_vector(A) - B, a[k] - b[k], 0);
+  CHECK_OP("sub_r_r", SU_vector(A) - SU_vector(B), a[k] - b[k], 0);
+  CHECK_OP("sub_l_expr", A - (B + B), a[k] - (b[k] + b[k]), 0);
+  CHECK_OP("neg_r", -SU_vector(A), -a[k], 0);
+  CHECK_OP("mul_r", SU_vector(A) * s, a[k] * s, 0);
+  CHECK_OP("lmul_r", s * SU_vector(A), s * a[k], 0);
   // the same object on both sides
   CHECK_OP("add_self", A + A, a[k] + a[k], 0);
   CHECK_OP("sub_self", A - A, a[k] - a[k], 0);
